@@ -791,3 +791,9 @@ fn validate_auth_packet(
 
     Ok(())
 }
+
+#[cfg(all(feature = "verif-hooks", kani))]
+#[allow(dead_code, unused)]
+pub(crate) mod verif_harness {
+    include!(concat!(env!("VERIF_HARNESS_DIR"), "/v5_auth_h.rs"));
+}
